@@ -424,17 +424,42 @@ GenLine(pats, s) ==
            post == IF Coin(body.s, 1, 3) THEN << AllToks[Ch(body.s, Len(AllToks))] >> ELSE <<>>
        IN G(pre \o body.x \o post, Rnd(body.s))
   ELSE GenToks(Ch(s1, 4) - 1, <<>>, s2)
+LeakLine(pats, s) ==
+  LET s1 == Rnd(s)  s2 == Rnd(s1)
+      kb == pats[Len(pats)].caps[1].k
+      second == IF Coin(s1, 2, 3) THEN TokOfClass(kb, s2) ELSE AllToks[Ch(s2, Len(AllToks))]
+  IN G(<< IntToks[Ch(s, Len(IntToks))], second >>, Rnd(s2))
 RECURSIVE GenLines(_, _, _, _)
 GenLines(pats, n, acc, s) ==
   IF n = 0 THEN G(acc, s)
   ELSE IF acc # <<>> /\ Coin(s, 1, 4) THEN GenLines(pats, n - 1, Append(acc, acc[Ch(s, Len(acc))]), Rnd(s))   \* repeat an earlier line
-  ELSE LET l == GenLine(pats, Rnd(s)) IN GenLines(pats, n - 1, Append(acc, [toks |-> l.x, file |-> Files[Ch(l.s, 2)]]), Rnd(l.s))
+  ELSE LET l == IF Profile = "leak" /\ Coin(s, 3, 5) THEN LeakLine(pats, Rnd(s)) ELSE GenLine(pats, Rnd(s)) IN GenLines(pats, n - 1, Append(acc, [toks |-> l.x, file |-> Files[Ch(l.s, 2)]]), Rnd(l.s))
 
 -----------------------------------------------------------------------------
 (* A case *)
+\* profile leak (C05): a DIRECTED first statement.  Inside /^(\d+) (\S+)/ a comparison of $1 decides whether the
+\* match of $2 against a one-capture pattern is evaluated at all; the block uses that match's capture.  On a line
+\* where the comparison short-circuits, the capture reference is reached without its match having run on THIS
+\* line (a runtime error in the reference semantics) - whatever an earlier line left in that match site must not show.
+LeakPats(kb) == << [anch |-> TRUE, w |-> <<>>, caps |-> << [k |-> "d", name |-> ""], [k |-> "s", name |-> ""] >>],
+                   [anch |-> FALSE, w |-> <<>>, caps |-> << [k |-> kb, name |-> ""] >>] >>
+LeakKind(s) == <<"d", "d", "f", "s">>[Ch(s, 4)]
+LeakStmt(pats, s) ==
+  LET iA == Len(pats) - 1  iB == Len(pats)
+      s1 == Rnd(s)  s2 == Rnd(s1)  s3 == Rnd(s2)
+      scA == ScopeWith(pats, iA, <<>>)
+      scB == ScopeWithSlot(pats, iB, scA, 999)
+      cmp == Bin(<<">", "<", ">=", "==">>[Ch(s, 4)], CapRef(scA[1], s1), [n |-> "int", v |-> <<3, 5, 10, 12>>[Ch(s1, 4)]])
+      pm  == [n |-> "pmatch", l |-> CapRef(scA[2], s1), p |-> iB, slot |-> 999]
+      use == CapRef(scB[1], s2)
+      w   == IF pats[iB].caps[1].k # "s" \/ Coin(s2, 1, 2) THEN [n |-> "expr", e |-> [n |-> "inc", m |-> "cd", idx |-> <<use>>]]
+             ELSE [n |-> "expr", e |-> [n |-> "assign", m |-> "td", idx |-> << [n |-> "str", v |-> <<"a">>] >>, r |-> use]]
+      inner == [n |-> "cond", c |-> Bin(IF Coin(s3, 4, 5) THEN "||" ELSE "&&", cmp, pm), t |-> <<w>>, e |-> <<>>, he |-> FALSE]
+  IN [n |-> "cond", c |-> [n |-> "pat", p |-> iA], t |-> <<inner>>, e |-> <<>>, he |-> FALSE]
 GenCase(seed) ==
   LET s0 == Rnd(Rnd(seed + 7919))
-      ps == GenPatterns(1 + Ch(s0, 3), <<>>, Rnd(s0))
+      ps0 == GenPatterns(1 + Ch(s0, 3), <<>>, Rnd(s0))
+      ps == IF Profile = "leak" THEN G(ps0.x \o LeakPats(LeakKind(s0)), ps0.s) ELSE ps0
       ndeco == IF Coin(ps.s, 1, 3) THEN 1 ELSE 0
       ctx0 == [pats |-> ps.x, decos |-> <<>>, indef |-> TRUE, dscope |-> <<>>]
       db == IF ndeco = 1 THEN GenBlock(ctx0, <<>>, 1, TRUE, 0, Rnd(ps.s)) ELSE G([b |-> <<>>, used |-> FALSE, ns |-> <<>>], Rnd(ps.s))
@@ -442,9 +467,10 @@ GenCase(seed) ==
       ctx == [pats |-> ps.x, decos |-> IF ndeco = 1 THEN <<"dec1">> ELSE <<>>, indef |-> FALSE, dscope |-> db.x.ns]
       bd == GenBlock(ctx, <<>>, 0, FALSE, 0, db.s)
       \* a defined decorator must be used (an unused one is a compile error): wrap the first statement
-      body0 == IF ndeco = 1 /\ ~HasDeco(bd.x.b)
+      body1 == IF ndeco = 1 /\ ~HasDeco(bd.x.b)
                THEN << [n |-> "deco", name |-> "dec1", t |-> <<Head(bd.x.b)>>] >> \o Tail(bd.x.b)
                ELSE bd.x.b
+      body0 == IF Profile = "leak" THEN << LeakStmt(ps.x, Rnd(bd.s + 13)) >> \o body1 ELSE body1
       used == UsedSs(body0) \cup (IF decos # <<>> THEN UsedSs(decos[1].body) ELSE {})
       decls0 == SelectSeq(Pool, LAMBDA d : d.name \in used)
       \* every metric gets a (never executed) typed write FIRST - before the decorator definitions too - so
